@@ -14,6 +14,7 @@ func init() { register("C18", checkC18) }
 
 func checkC18(c *Ctx) {
 	r := c.R
+	r.Rule("R02.8", "(shared with C02) hardening a path cannot fail: every indexing of a fixed table, a scratch array or the result of a bounded split on the print path (checkpath included) is within bounds")
 	r.Rule("R18.8", "every registered mapping is tried: the loops of checkpath over the prefix table and over the regexp list have their natural exit only (a break after the first match leaves a later registered prefix in the path)")
 	r.Rule("R18.9", "on by default: every constant the package stores to the flag word carries Lprivacypath, and the package's own RemoveFlags/SetFlags calls (start-up code included) never clear it")
 	r.Rule("R18.10", "list maintenance keeps the edited list: no result of append / slices.Delete / Insert / Compact ... is dropped in the package (a dropped slices.Delete leaves a zeroed regexp entry that makes every hardening call panic)")
@@ -37,6 +38,7 @@ func checkC18(c *Ctx) {
 			continue
 		}
 		c18Check(c, p, m)
+		constBounds(c, p, m)
 		registrationStores(c, p, m)
 		regexpRuleList(c, p)
 		frameFilesHardened(c, p, m)
